@@ -551,6 +551,7 @@ def run : PM String := do
             let x ← guardSh; let nModes ← nat; let k ← nat
             let fm ← many k (do let m ← nat; let r ← nat; let c ← nat; pure (m, r, c))
             pure (Guard.guardMprodList x nModes fm.toList)
+        | "qtt_to_tens" => do let x ← guardSh; let sh ← natList; pure (Guard.guardQttToTens x sh)
         | "pad" => do let d ← nat; let k ← nat; pure (Guard.guardPad d k)
         | _ => throw s!"guard2? {name}" : PM Guard.Outcome)
       match o with
